@@ -314,16 +314,28 @@ def _copies(ctx, fi: FuncInfo, c: Comb):
     """Returned walkers are gathers/copies of input walkers by the comb index only; both spin
     blocks use the same index."""
     q = fi.qualname
-    uses_pair = any(isinstance(nd, ast.Subscript) and isinstance(nd.value, ast.Name)
-                    and nd.value.id == "walkers" and isinstance(nd.slice, ast.Constant)
-                    and nd.slice.value in (0, 1) for nd in ast.walk(fi.node))
+    wprm_ = (fi.pos_params() or [None])[0]
+    uses_pair = bool(_subscripts_pair(fi.node, wprm_.name if wprm_ is not None else "walkers",
+                                      ctx.p.modules[fi.module].constants))
     n_g = len(c.gathers)
     want = 2 if uses_pair else 1
+    if n_g == 0 and c.tree_gather is None:
+        # no copy through the comb index was recognised at all.  A positive witness would be the container handed back as
+        # it came; anything else (the copying parked in a helper, written over a list of blocks, ...) is not judged
+        R_ = getattr(c, "result", None)
+        w_out = strip_wrappers(R_.args[0]) if R_ is not None and R_.op == "tuple" and R_.args else None
+        if w_out is not None and wprm_ is not None and w_out is sym(wprm_.name):
+            ctx.ob("PAIR-1", f"{q}: the walkers handed back are gathered with the comb index", False,
+                   f"the function returns its `{wprm_.name}` argument unchanged", fi)
+        else:
+            ctx.rep.note(f"{q}: no gather by the comb index was recognised in this shape of the code; the gather-count rule "
+                         f"is not applied to it")
     if c.tree_gather is not None and n_g == 0:
         ctx.ob("PAIR-1", f"{q}: every block of the walker container is gathered with the comb index", True,
                f"tree_map(block -> block[index], {c.tree_gather})", fi)
         return
-    ctx.ob("PAIR-1", f"{q}: {'both spin blocks are' if uses_pair else 'the walker block is'} gathered with the comb index",
+    if n_g > 0:
+      ctx.ob("PAIR-1", f"{q}: {'both spin blocks are' if uses_pair else 'the walker block is'} gathered with the comb index",
            n_g == want, f"{n_g} gather(s) by the searchsorted index: {[(d, s) for d, s, _ in c.gathers]}"
            + ("" if n_g == want else f" (expected {want})"), fi)
     if uses_pair and n_g == 2:
@@ -389,7 +401,7 @@ def callers(ctx):
                 continue
             done_callers.add((fi.qualname, kern))
             n += 1
-            k_split = common.prng1(ctx, fi)
+            k_split = common.prng1(ctx, fi, self_class=q)
             ctx.ob("PRNG-1", f"{fi.qualname}: the key is split before the offset is drawn", k_split >= 1,
                    f"{k_split} random.split call(s)", fi)
             ev = Evaluator(p)
@@ -440,11 +452,17 @@ def callers(ctx):
                    else "comb arguments/results are not (walkers, weights) of prop_data in that order", fi)
             # container kind agreement
             callee = p.functions[c.args[0].args[0]]
-            callee_pair = _subscripts_pair(callee.node, "walkers")
+            wname = (callee.pos_params() or [None])[0]
+            callee_pair = _subscripts_pair(callee.node, wname.name if wname is not None else "walkers",
+                                           p.modules[callee.module].constants)
             trot = p.lookup_method(q, "_apply_trotprop")
-            cls_pair = _subscripts_pair(trot.node, "walkers") if trot is not None else None
+            cls_pair = _subscripts_pair(trot.node, "walkers", p.modules[trot.module].constants) if trot is not None else None
+            if callee_pair is None or cls_pair is None:
+                ctx.rep.note(f"{fi.qualname}: {callee.qualname if callee_pair is None else q + '._apply_trotprop'} hands the walker "
+                             f"container on without indexing it; the container-kind rule is not applied")
+                continue
             ctx.ob("PAIR-1", f"{fi.qualname}: comb matches the walker container of the class",
-                   cls_pair is None or callee_pair == cls_pair,
+                   callee_pair == cls_pair,
                    f"{callee.qualname} treats walkers as {'[up, dn]' if callee_pair else 'one array'}; "
                    f"{q} stores them as {'[up, dn]' if cls_pair else 'one array'}", fi)
             if mname.endswith("global"):
@@ -454,10 +472,39 @@ def callers(ctx):
         raise AnalysisError(f"found {n} reconfiguration callers (expected 4)")
 
 
-def _subscripts_pair(node, name) -> bool:
-    return any(isinstance(nd, ast.Subscript) and isinstance(nd.value, ast.Name) and nd.value.id == name
-               and isinstance(nd.slice, ast.Constant) and nd.slice.value in (0, 1)
-               for nd in ast.walk(node))
+def _subscripts_pair(node, name, consts=None) -> Optional[bool]:
+    """How the function treats the container `name`: True -- as an [up, dn] pair (name[0] / name[1], also through a
+    module constant UP / DN, or unpacked into two names); False -- as one array (name.shape / .dtype / arithmetic on it /
+    indexed by a computed index); None -- the body shows neither (it hands the container on)."""
+    consts = consts or {}
+
+    def is01(sl):
+        if isinstance(sl, ast.Constant):
+            return sl.value in (0, 1) and not isinstance(sl.value, bool)
+        if isinstance(sl, ast.Name) and sl.id in consts:
+            v = consts[sl.id]
+            return isinstance(v, ast.Constant) and v.value in (0, 1) and not isinstance(v.value, bool)
+        return False
+    pair = single = False
+    for nd in ast.walk(node):
+        if isinstance(nd, ast.Subscript) and isinstance(nd.value, ast.Name) and nd.value.id == name:
+            if is01(nd.slice):
+                pair = True
+            elif not isinstance(nd.slice, (ast.Slice, ast.Tuple)):
+                single = True
+        elif isinstance(nd, ast.Assign) and isinstance(nd.value, ast.Name) and nd.value.id == name and \
+                len(nd.targets) == 1 and isinstance(nd.targets[0], (ast.Tuple, ast.List)) and len(nd.targets[0].elts) == 2:
+            pair = True
+        elif isinstance(nd, ast.Attribute) and isinstance(nd.value, ast.Name) and nd.value.id == name and \
+                nd.attr in ("shape", "dtype", "size", "ndim", "at", "reshape"):
+            single = True
+        elif isinstance(nd, ast.BinOp) and any(isinstance(x, ast.Name) and x.id == name for x in (nd.left, nd.right)):
+            single = True
+    if pair:
+        return True
+    if single:
+        return False
+    return None
 
 
 COLLECTIVES = {"Gather", "Scatter", "Reduce", "Bcast", "bcast", "Barrier", "Allreduce", "Allgather",
@@ -522,7 +569,12 @@ def mpi_rules(ctx):
                 # root buffers allocated alike
                 gb = pg[1] if len(pg) > 1 else None
                 sb = ps[0] if ps else None
-                ctx.ob("MPI-2", f"{q}: Gather #{k} and Scatter #{k} use root buffers of the same extent",
+                if gb is not None and sb is not None and (_alloc_shape(gb) is None or _alloc_shape(sb) is None):
+                    ctx.rep.note(f"{q}: the root buffer of Gather / Scatter #{k} is allocated in a way the value graph does "
+                                 f"not follow ({show(gb if _alloc_shape(gb) is None else sb, maxdepth=2)[:60]}); the extent "
+                                 f"rule is not applied to this pair")
+                else:
+                  ctx.ob("MPI-2", f"{q}: Gather #{k} and Scatter #{k} use root buffers of the same extent",
                        gb is not None and sb is not None and _same_alloc(gb, sb),
                        f"{show(gb, maxdepth=2)[:70]} vs {show(sb, maxdepth=2)[:70]}", fi, eg.line)
                 dg, ds_ = (_alloc_dtype(gb) if gb is not None else None), (_alloc_dtype(sb) if sb is not None else None)
@@ -531,6 +583,35 @@ def mpi_rules(ctx):
                     # the walkers' dtype (numpy's default float64) silently drops the imaginary part of what is copied in
                     ctx.ob("MPI-2", f"{q}: Gather #{k} and Scatter #{k} use root buffers of the same dtype", dg == ds_,
                            f"gathered into dtype {dg}, scattered from dtype {ds_}", fi, es.line)
+            # what the root combs: the cumulative weights are taken over the receive buffer of the Gather that collected the
+            # weights argument (second parameter) of every rank -- the rank's own weights are a different array of a
+            # different length whenever there is more than one rank
+            wprm = [x.name for x in fi.pos_params()]
+            wsym = sym(wprm[1]) if len(wprm) > 1 else None
+
+            def phi_leaves(t_):
+                t_ = strip_wrappers(t_)
+                if t_.op in ("phi", "ifexp"):
+                    return phi_leaves(t_.args[1]) + phi_leaves(t_.args[2])
+                return [t_]
+            wg = [pg_ for (_, pg_) in gathers if len(pg_) > 1 and wsym is not None and any(x is wsym for x in subterms(pg_[0]))]
+            cums = [e.data for e in ev.events if e.kind == "call" and array_fn(e.data) == "cumsum"]
+            if len(wg) == 1 and cums:
+                recv_leaves = phi_leaves(wg[0][1])
+                for cu in cums:
+                    arg = strip_wrappers(call_parts(cu)[1][0])
+                    while arg.op == "call" and (array_fn(arg) or "") in ("abs", "absolute", "fabs") and call_parts(arg)[1]:
+                        arg = strip_wrappers(call_parts(arg)[1][0])
+                    roots = phi_leaves(arg)
+                    from_recv = any(r_ is l_ for r_ in roots for l_ in recv_leaves)
+                    local = any(r_ is wsym for r_ in roots)
+                    if from_recv or local:
+                        ctx.ob("MPI-1", f"{q}: the cumulative weights are those of the gathered buffer", from_recv and not local,
+                               "cumsum over the receive buffer of the weights Gather" if from_recv and not local else
+                               f"cumsum over the rank's own `{wprm[1]}`: the comb sees the walkers of rank 0 only", fi)
+                    else:
+                        ctx.rep.note(f"{q}: cumulative weights are taken over {show(arg, maxdepth=2)[:50]}, neither the gathered "
+                                     f"buffer nor the argument; the source rule is not applied")
             # the comb itself runs on the root only
             ss_paths = [e.path for e in ev.events if e.kind == "call" and array_fn(e.data) == "searchsorted"]
             on_root = bool(ss_paths) and all(any(_rank_dependent(c) and pol for c, pol in path)
@@ -630,6 +711,9 @@ def stub(ctx):
             if isinstance(nd, ast.Assign) and isinstance(nd.targets[0], ast.Attribute) and \
                     isinstance(nd.value, ast.Constant):
                 vals[nd.targets[0].attr] = nd.value.value
+            elif isinstance(nd, ast.AnnAssign) and isinstance(nd.target, ast.Attribute) and \
+                    isinstance(nd.value, ast.Constant):                   # self.size: int = 1
+                vals[nd.target.attr] = nd.value.value
     ctx.ob("BIND-5", "config.not_a_comm: one rank, rank 0", vals.get("size") == 1 and vals.get("rank") == 0,
            f"size={vals.get('size')} rank={vals.get('rank')}", init)
     for mname, ret in (("Get_size", "size"), ("Get_rank", "rank")):
